@@ -41,6 +41,12 @@ def run(chk: Check, proj: Project) -> None:
     s4(chk, proj, w)
     s5(chk, proj, w)
     s6(chk, proj, w)
+    from . import C03
+
+    chk.borrow("S7", "fills and deferred children are rendered with the loop state and variable layering of THEIR position: snapshot copy discipline and the position of the captured-variable layer (shared with C03-S6/S9)",
+               lambda sub: (C03.s6(sub, proj, w), C03.s9_forloop_copies(sub, proj, w)))
+    chk.borrow("S8", "slot resolution, the isolation gate and the fill-context choice read the SAME mode (the component's registry settings) (shared with C03-S10)",
+               lambda sub: C03.s10_mode_source(sub, proj, w), only=lambda o: "mode-from-registry" in o.construct)
 
 
 def s6(chk: Check, proj: Project, w) -> None:
